@@ -3,6 +3,18 @@
 import json
 
 CLAIMS = {
+ "C03": dict(cat="model_checking", design="6 C03",
+  text="All pairs of 26 truthiness-class representatives in if/elif/else and as loop conditions, 17 iterables x 4 loop-variable names x 9 bodies, and every program of total size <=3 (quick) / <=4 (thorough) statements over the statement grammar (the 8 for shapes, for-in, break/continue, assignments to new, outer and shadowing names) are run on the real interpreter and on the reference interpreter; the ordered probe trace and the final point must agree. The families are indexable and enumerated completely.",
+  note="Non-terminating programs are cut by a signal and compared as trace prefixes. Map iteration order is tried both ways for 2-key maps; larger maps are not generated.",
+  tech="bounded-exhaustive program enumeration (indexable families by size) on the real interpreter vs reference interpreter"),
+ "C13": dict(cat="model_checking", design="6 C13",
+  text="All reachable combinations of script bodies a.p/b.p/c.p up to 3/2/1 (thorough 3/3/2) statements over {assign, probe, add_key, exit, raise, use} with optional if/for-in wrappers, same names on every side, are loaded and run on the real engine and on the reference (fresh scope per callee, shared point, exit local, error chain = failing statement then use sites outward); trace, point, error flag and the whole position chain are compared.",
+  note="Depth of the call tree is 3; the error-raising statement is one fixed ill-typed division.",
+  tech="bounded-exhaustive enumeration of script sets (call trees) on the real engine vs reference interpreter"),
+ "C14": dict(cat="fault_enumeration", design="6 C14",
+  text="For every loop-bearing program of the bound (and nested empty infinite loops, also inside use()d scripts) on both interpreters, the exit signal is made to fire first at EVERY poll index k = 1..N; each interrupted run must return nil with exactly the point and probe-trace prefix the uninterrupted run had at poll k. This enumerates all fault points of the only environment answer the library asks for.",
+  note="Horizon 40 (quick) / 200 (thorough) polls for non-terminating programs. A run that does not return 20 s after being told to stop is re-run and then reported (the only wall-clock decision).",
+  tech="exhaustive fault-point enumeration (every poll index of the cancellation signal) on the real interpreters with a prefix oracle"),
  "C01": dict(cat="model_checking", design="6 C01",
   text="About 5 million load-accepted programs (every expression form x 25 syntactic roles, every builtin x every argument list its real checker accepts) are each run on 4 input points on the real interpreter with panics recovered and fatal worker deaths detected; the oracle is exactly the property: control returns, with success or an error that names the script and carries a position. The enumeration is complete for the stated alphabet, so a crashing cell of the (form, operand type, point) space cannot be missed.",
   note="Alphabet: 31 atoms, 14 index keys, 14 slice bounds, 55 argument candidates; deeper nesting only in the thorough tier. Go runtime fatal errors are detected by worker death, not recovered.",
